@@ -205,7 +205,7 @@ func signDKLsOn[P curves.Point[P, B, S], B algebra.PrimeFieldElement[B], S algeb
 		if d.std != nil {
 			shift += 5
 		}
-		for _, it := range planCostly(2, shift) {
+		for _, it := range planCostly(1, shift) {
 			api := []string{"rounds", "runner"}[(it.pi+it.qi+mi+r)%2]
 			msgClass := msgClasses[(it.pi+it.qi+r)%len(msgClasses)]
 			name := fmt.Sprintf("sign:dkls23-%s:%s:%s:%s", mult, d.g.name, it.np.Name, it.q.kind)
